@@ -21,7 +21,7 @@ func init() {
 func checkC18(c *Ctx) {
 	r181(c)
 	r181b(c)
-	r182(c)
+	r182(c, "R18.2 lock-order-and-blocking-under-lock")
 	r183(c)
 }
 
@@ -133,6 +133,8 @@ func r181(c *Ctx) {
 			c.ob(rule, "active-slot-written-only-on-fresh-service in "+fname(u.in), call.Pos(), fresh, true, "TargetSlotActive may be deployed only into the service returned by findOrCreateService (a fresh object, R06.2)")
 		}
 	}
+	// ... and that function never hands out the installed object (premise of the Service.active exemption)
+	freshServiceObject(c, rule)
 	// 2. every field of every struct type of the package
 	var typeNames []string
 	for name, m := range c.server.Members {
@@ -321,8 +323,7 @@ type lockEdge struct {
 	fn       *ssa.Function
 }
 
-func r182(c *Ctx) {
-	const rule = "R18.2 lock-order-and-blocking-under-lock"
+func r182(c *Ctx, rule string) {
 	c.floor(rule, 6)
 	may := c.mayLockInfo()
 	var edges []lockEdge
@@ -542,6 +543,84 @@ func r183(c *Ctx) {
 					_, guarded = sl.X.(*ssa.Alloc) // slice of a local array literal
 				}
 				c.ob(rule, fmt.Sprintf("constant index [%d] in %s", k, fname(fn)), in.Pos(), guarded, true, "indexing a slice with a constant must be dominated by a length test (index out of range panics)")
+			}
+		}
+	}
+	// run-time index into a slice: in range because it is the loop variable of a range over that slice, is tested
+	// against len of that slice, or was just reduced modulo len of that slice
+	for _, fn := range c.proxyFuncs() {
+		for _, b := range fn.Blocks {
+			for _, in := range b.Instrs {
+				ia, ok := in.(*ssa.IndexAddr)
+				if !ok {
+					continue
+				}
+				if _, isK := constInt(ia.Index); isK {
+					continue
+				}
+				if _, isSlice := ia.X.Type().Underlying().(*types.Slice); !isSlice {
+					continue
+				}
+				sameSlice := func(v ssa.Value) bool {
+					if v == ia.X {
+						return true
+					}
+					f1, b1, ok1 := fieldLoad(v)
+					f2, b2, ok2 := fieldLoad(ia.X)
+					return ok1 && ok2 && f1 == f2 && b1 == b2
+				}
+				isLenOfSlice := func(v ssa.Value) bool {
+					call, ok := v.(*ssa.Call)
+					if !ok {
+						return false
+					}
+					bi, ok := call.Call.Value.(*ssa.Builtin)
+					return ok && bi.Name() == "len" && sameSlice(call.Call.Args[0])
+				}
+				guarded := false
+				// idx < len(X) on a dominating branch (covers `for i := range X` and explicit tests)
+				for _, ce := range dominatingConds(b) {
+					cm, ok := ce.asCmp()
+					if !ok {
+						continue
+					}
+					if cm.op == token.LSS && cm.x == ia.Index && isLenOfSlice(cm.y) {
+						guarded = true
+					}
+					if cm.op == token.GTR && cm.y == ia.Index && isLenOfSlice(cm.x) {
+						guarded = true
+					}
+				}
+				// idx = E % len(X), directly or through a field stored in this block with nothing in between that could change it
+				isMod := func(v ssa.Value) bool {
+					bo, ok := v.(*ssa.BinOp)
+					return ok && bo.Op == token.REM && isLenOfSlice(bo.Y)
+				}
+				if !guarded && isMod(ia.Index) {
+					guarded = true
+				}
+				if !guarded {
+					if f, base, ok := fieldLoad(ia.Index); ok {
+						var last *ssa.Store
+						for _, prev := range b.Instrs {
+							if prev == in {
+								break
+							}
+							switch x := prev.(type) {
+							case *ssa.Store:
+								if f2, b2, ok := fieldOfAddr(x.Addr); ok && f2 == f && b2 == base {
+									last = x
+								}
+							case *ssa.Call:
+								if _, isB := x.Call.Value.(*ssa.Builtin); !isB {
+									last = nil
+								}
+							}
+						}
+						guarded = last != nil && isMod(last.Val)
+					}
+				}
+				c.ob(rule, "run-time index in "+fname(fn), in.Pos(), guarded, true, "an index computed at run time must be provably within the slice it indexes (loop variable of a range over it, tested against its len, or reduced modulo its len just before): the healthy list shrinks and grows under the handler's feet, and index out of range panics")
 			}
 		}
 	}
